@@ -1037,9 +1037,10 @@ impl<const M: usize> Exec<M> {
                 }
                 self.blocks.iter_mut().for_each(|b| b.live = false);
                 self.held.clear();
+                let alt = self.blocks.len() % 2 == 1;
                 let (r, evs) = galloc::record(|| {
                     catch_unwind(AssertUnwindSafe(|| {
-                        if let Some(r) = ctor_plain::<M>(*cap, *f) {
+                        if let Some(r) = ctor_plain::<M>(*cap, *f, alt) {
                             r
                         } else if *f {
                             Bump::<M>::try_with_min_align_and_capacity(*cap).map_err(|_| ())
@@ -1791,14 +1792,14 @@ impl<T> Pipe for T {}
 
 /// For `MIN_ALIGN = 1` and even capacities the arena is built through the plain constructors
 /// (`new`, `try_new`, `with_capacity`, `try_with_capacity`), which must be the same thing.
-fn ctor_plain<const M: usize>(cap: usize, f: bool) -> Option<Result<Bump<M>, ()>> {
+fn ctor_plain<const M: usize>(cap: usize, f: bool, alt: bool) -> Option<Result<Bump<M>, ()>> {
     if M != 1 || cap % 2 != 0 {
         return None;
     }
     let b1: Result<Bump<1>, ()> = if f {
         if cap == 0 { Bump::try_new().map_err(|_| ()) } else { Bump::try_with_capacity(cap).map_err(|_| ()) }
     } else if cap == 0 {
-        Ok(if cap_is_default_variant() { Bump::default() } else { Bump::new() })
+        Ok(if alt { Bump::default() } else { Bump::new() })
     } else {
         Ok(Bump::with_capacity(cap))
     };
@@ -1809,11 +1810,6 @@ fn ctor_plain<const M: usize>(cap: usize, f: bool) -> Option<Result<Bump<M>, ()>
     }))
 }
 
-fn cap_is_default_variant() -> bool {
-    use std::sync::atomic::{AtomicUsize, Ordering};
-    static N: AtomicUsize = AtomicUsize::new(0);
-    N.fetch_add(1, Ordering::Relaxed) % 2 == 1
-}
 
 /// Run a whole plan (given ops, or generated on the fly when `gen` is Some).
 pub fn run_plan<const M: usize>(plan: &mut Plan, gen: Option<(Profile, usize)>, static_addr: usize, footer_overhead: usize) -> Out {
